@@ -209,12 +209,12 @@ func exec(in string) (res string) {
 
 type hb struct{ ops []string }
 
-func (h *hb) add(k int)     { h.ops = append(h.ops, "a"+strconv.Itoa(k)) }
-func (h *hb) rep(k int)     { h.ops = append(h.ops, "p"+strconv.Itoa(k)) }
-func (h *hb) rem(k int)     { h.ops = append(h.ops, "r"+strconv.Itoa(k)) }
-func (h *hb) get(k int)     { h.ops = append(h.ops, "g"+strconv.Itoa(k)) }
-func (h *hb) clear()        { h.ops = append(h.ops, "c") }
-func (h *hb) clone()        { h.ops = append(h.ops, "C") }
+func (h *hb) add(k int)      { h.ops = append(h.ops, "a"+strconv.Itoa(k)) }
+func (h *hb) rep(k int)      { h.ops = append(h.ops, "p"+strconv.Itoa(k)) }
+func (h *hb) rem(k int)      { h.ops = append(h.ops, "r"+strconv.Itoa(k)) }
+func (h *hb) get(k int)      { h.ops = append(h.ops, "g"+strconv.Itoa(k)) }
+func (h *hb) clear()         { h.ops = append(h.ops, "c") }
+func (h *hb) clone()         { h.ops = append(h.ops, "C") }
 func (h *hb) String() string { return strings.Join(h.ops, ";") }
 func (h *hb) newFrom(keys []int) {
 	s := make([]string, len(keys))
@@ -580,7 +580,7 @@ func sortInts(a []int) {
 
 // the sweep of the float depth limit
 func genSweep(g *tr.G) {
-	kcap := g.Scale(200, 1200) // largest limit value checked exactly (numbers of 11*k bits)
+	kcap := g.Scale(200, 800) // largest limit value checked exactly (numbers of 11*k bits)
 	nmax := g.Scale(4096, 1<<20)
 	stride := g.Scale(11, 1)
 	for β := 0; β < 1000; β++ {
@@ -601,8 +601,12 @@ func genSweep(g *tr.G) {
 		g.Emit(in, true, "sweep-range")
 		if g.Thorough() && f(4097) <= kcap {
 			// sampled windows up to nmax and the window around every power of two
+			var starts []int
 			for w := 0; w < 24; w++ {
-				n0 := g.R.Range(4097, nmax-300)
+				starts = append(starts, g.R.Range(4097, nmax-300))
+			}
+			sortInts(starts) // ascending, so that the checker's powers only ever grow
+			for _, n0 := range starts {
 				if f(n0+256) <= kcap {
 					g.Emit("LR "+strconv.Itoa(β)+" "+strconv.Itoa(n0)+" "+strconv.Itoa(n0+256)+" "+rle(β, n0, n0+256), true, "sweep-window")
 				}
@@ -613,7 +617,7 @@ func genSweep(g *tr.G) {
 		for e := 1; e <= 46; e++ {
 			for d := -1; d <= 1; d++ {
 				n := 1<<e + d
-				if n >= 1 && f(n) <= g.Scale(100, 400) {
+				if n >= 1 && f(n) <= g.Scale(100, 200) {
 					g.Emit("LP "+strconv.Itoa(β)+" "+strconv.Itoa(n)+" "+strconv.Itoa(f(n)), true, "sweep-point")
 				}
 			}
